@@ -37,7 +37,10 @@ func fileExists(name string) (bool, error) {
 }
 
 func createSegment(name string, opt Options) (err error) {
-	f, err := os.OpenFile(name, os.O_RDWR|os.O_CREATE, opt.FileMode)
+	// built under a temporary name: a crash must not leave a file with the
+	// segment's name that is not a segment yet
+	temp := name + ".tmp"
+	f, err := os.OpenFile(temp, os.O_RDWR|os.O_CREATE|os.O_TRUNC, opt.FileMode)
 	if err != nil {
 		return
 	}
@@ -46,8 +49,11 @@ func createSegment(name string, opt Options) (err error) {
 		if e := f.Close(); err == nil {
 			err = e
 		}
+		if err == nil {
+			err = os.Rename(temp, name)
+		}
 		if err != nil {
-			if e := os.Remove(name); err == nil {
+			if e := os.Remove(temp); err == nil {
 				err = e
 			}
 		}
